@@ -25,7 +25,7 @@
    Verdicts are total: the ids of all failing cases are written out. *)
 EXTENDS Integers, Sequences, FiniteSets, TLC, Json, IOUtils
 
-MaxLines == 0  MaxEditions == 0  Modes == {}  Rich == FALSE
+MaxLines == 0  MaxEditions == 0  MinEditions == 1  Modes == {}  Rich == FALSE
 VARIABLES full, pos, cut, st, alt, out
 T == INSTANCE T4Scan
 
